@@ -18,6 +18,8 @@ Record case := {
   c_nodes : list node;       (* books before (allEcNodes order) *)
   c_colls : list N;          (* one balanceEcVolumes round per collection *)
   c_do_racks : bool;         (* balanceEcRacks run at the end *)
+  c_gated : bool;            (* entry through the totalFreeEcSlots gate of commandEcBalance.Do *)
+  c_refused : bool;          (* the gate refused: nothing was planned *)
   c_events : list event;     (* the printed plan *)
   c_final : list node;       (* books after *)
   c_rfinal : list (N * Z) }. (* EcRack.freeEcSlot after *)
@@ -142,10 +144,13 @@ Definition across_cands (st : state) (v : N) (evs : list event) : list (list (N 
   let over := filter (fun r => (alookup rsc r >? avg)%Z) keys in
   let quiet := map (fun r => (r, @nil N)) (minus keys over) in
   let seen := map fst (across_choices ns evs) in
+  (* the order of the overflowing racks only matters when two racks can pick the same shard id
+     (picked[shardId] is overwritten): a shard of v held by two nodes *)
+  let collide := existsb (fun s => (1 <? length (holders ns (dedup locs) v s))%nat) shard_range in
   flat_map (fun ord =>
     map (fun combo => quiet ++ combine ord combo)
         (cart (map (fun r => rack_cands ns v locs r (Z.to_nat (alookup rsc r - avg)) seen) ord)))
-    (perms over).
+    (if collide then perms over else [over]).
 
 Definition evs_eqb := list_eqb event_eqb.
 
@@ -246,6 +251,15 @@ Definition accept (c : case) : option (plan_orc * list item) :=
     | None => None
     end).
 
+(* with the gate of commandEcBalance.Do: refused exactly when the model's gate refuses, and then
+   nothing is printed and the books are untouched *)
+Definition corr (c : case) : bool :=
+  if c_gated c && negb (gate (c_nodes c)) then
+    c_refused c && match c_events c with [] => true | _ => false end &&
+    list_eqb node_eqb (c_nodes c) (c_final c) && racks_eqb (collect_racks (c_nodes c)) (c_rfinal c)
+  else
+    negb (c_refused c) && match accept c with Some _ => true | None => false end.
+
 (* ---------- the property oracle: naive replay of the printed plan ---------- *)
 Record rnode := { r_id : N; r_rack : N; r_free : Z; r_holds : list (N * N) }.
 Definition pair_eqb (a b : N * N) : bool := (fst a =? fst b) && (snd a =? snd b).
@@ -267,58 +281,135 @@ Definition r_upd (rs : list rnode) (id : N) (f : rnode -> rnode) : list rnode :=
 Definition r_rack_count (rs : list rnode) (r v : N) : nat :=
   length (flat_map (fun n => if r_rack n =? r then filter (fun p => fst p =? v) (r_holds n) else []) rs).
 
+Definition r_total (rs : list rnode) (v s : N) : nat := length (filter (fun n => holds n v s) rs).
+Definition r_rack_of (rs : list rnode) (id : N) : N := match r_get rs id with Some n => r_rack n | None => 0 end.
+
+(* Every way the printed plan can violate the property text is a separate [fail]; each failure is
+   paired with the known finding that explains it AT THAT KEY / NODE / STEP, if any:
+   finding 1 (dry run keeps duplicates) explains only failures about a (volume, shard) that is on
+     two nodes in the snapshot;
+   finding 0 (unplaced picks vanish) explains only: the books lacking a shard (v,s) at the node the
+     plan said "v.s at X can not find a destination rack" about, and - because the books then count
+     one free slot / one shard too many for X - a later move onto X without a free slot, or a later
+     move of v into X's rack above the spread limit.  The "can not find" line must already have been
+     printed when the move is planned. *)
+Inductive fail :=
+| FSrc (v s : N)              (* planned move of a shard its source does not hold *)
+| FDstHolds (v s : N)         (* planned onto a server that already holds that shard *)
+| FDstFree (dst : N)          (* planned onto a server without a free shard slot *)
+| FSpread (v r : N)           (* more than ceil(14/#racks) shards of v on the destination rack *)
+| FUnknownNode
+| FNodes                      (* the books after are not about the same servers *)
+| FSlots (n : N)              (* free slots + shards held is not what it was: a slot leaked *)
+| FBooks (n v s : N) (lost : bool)  (* books after <> cluster after the plan, at node n, shard (v,s) *)
+| FOnceReplay (v s : N)       (* after the plan the shard is not on exactly one server *)
+| FOnceBooks (v s : N).       (* in the books after, the shard is not on exactly one server *)
+
+Definition drop3 := (N * N * N)%type.   (* (v, s, node) of a printed "can not find a destination rack" *)
+Definition dupkey (r0 : list rnode) (v s : N) : bool := (1 <? r_total r0 v s)%nat.
+Definition k1_if (b : bool) : option N := if b then Some 1 else None.
+Definition k0_if (b : bool) : option N := if b then Some 0 else None.
+
 (* legal move: the source has the shard, the destination does not and has a free
    slot; a move to another rack leaves at most ceil(14/#racks) shards of the volume there *)
-Definition r_move_ok (rs : list rnode) (limit : Z) (src v s dst : N) : bool :=
+Definition move_fails (r0 rs : list rnode) (limit : Z) (drops : list drop3) (src v s dst : N)
+  : list (fail * option N) :=
   match r_get rs src, r_get rs dst with
   | Some a, Some b =>
-      holds a v s && negb (holds b v s) && (0 <? r_free b)%Z &&
-      ((r_rack a =? r_rack b) || (Z.of_nat (r_rack_count rs (r_rack b) v) + 1 <=? limit)%Z)
-  | _, _ => false
+      (if holds a v s then [] else [(FSrc v s, k1_if (dupkey r0 v s))]) ++
+      (if holds b v s then [(FDstHolds v s, k1_if (dupkey r0 v s))] else []) ++
+      (if (0 <? r_free b)%Z then []
+       else [(FDstFree dst,
+              if existsb (fun d : drop3 => snd d =? dst) drops then Some 0
+              else k1_if (existsb (fun p : N * N => dupkey r0 (fst p) (snd p)) (r_holds b)))]) ++
+      (if (r_rack a =? r_rack b) || (Z.of_nat (r_rack_count rs (r_rack b) v) + 1 <=? limit)%Z then []
+       else [(FSpread v (r_rack b),
+              if existsb (fun d : drop3 => (fst (fst d) =? v) && (r_rack_of rs (snd d) =? r_rack b)) drops then Some 0
+              else k1_if (existsb (fun n => (r_rack n =? r_rack b) &&
+                                            existsb (fun p : N * N => (fst p =? v) && dupkey r0 v (snd p)) (r_holds n)) rs))])
+  | _, _ => [(FUnknownNode, None)]
   end.
 
-Fixpoint replay (rs : list rnode) (limit : Z) (evs : list event) : list rnode * bool :=
+Fixpoint replay (r0 rs : list rnode) (limit : Z) (drops : list drop3) (evs : list event)
+  : list rnode * list drop3 * list (fail * option N) :=
   match evs with
-  | [] => (rs, true)
+  | [] => (rs, drops, [])
   | e :: evs' =>
       match e with
       | EKeep v s _ k =>   (* the plan deletes every other copy *)
-          replay (map (fun n => if r_id n =? k then n else r_remove v s n) rs) limit evs'
+          replay r0 (map (fun n => if r_id n =? k then n else r_remove v s n) rs) limit drops evs'
+      | ENoRack v s src => replay r0 rs limit ((v, s, src) :: drops) evs'
       | EMove src v s dst | ERackMove src v s dst =>
-          let ok := r_move_ok rs limit src v s dst in
-          let '(rs', ok') := replay (r_upd (r_upd rs dst (r_add v s)) src (r_remove v s)) limit evs' in
-          (rs', ok && ok')
-      | _ => replay rs limit evs'
+          let fs := move_fails r0 rs limit drops src v s dst in
+          let '(rs', drops', fs') := replay r0 (r_upd (r_upd rs dst (r_add v s)) src (r_remove v s)) limit drops evs' in
+          (rs', drops', fs ++ fs')
+      | _ => replay r0 rs limit drops evs'
       end
   end.
 
-Definition r_total (rs : list rnode) (v s : N) : nat := length (filter (fun n => holds n v s) rs).
-Definition subset (a b : list (N * N)) : bool := forallb (fun p => existsb (pair_eqb p) b) a.
+Definition slots (n : rnode) : Z := (r_free n + Z.of_nat (length (r_holds n)))%Z.
+Definition in_drops (drops : list drop3) (v s n : N) : bool :=
+  existsb (fun d : drop3 => (fst (fst d) =? v) && (snd (fst d) =? s) && (snd d =? n)) drops.
+Definition key_dropped (drops : list drop3) (v s : N) : bool :=
+  existsb (fun d : drop3 => (fst (fst d) =? v) && (snd (fst d) =? s)) drops.
 
-Definition prop_ok (c : case) : bool :=
+(* books after  vs  the cluster after the plan, node by node and shard by shard *)
+Fixpoint books_fails (rall r0 books rf : list rnode) (drops : list drop3) : list (fail * option N) :=
+  match r0, books, rf with
+  | [], [], [] => []
+  | a :: r0', b :: books', f :: rf' =>
+      if (r_id a =? r_id b) && (r_id b =? r_id f) then
+        (if (slots b =? slots a)%Z then [] else [(FSlots (r_id b), None)]) ++
+        flat_map (fun p : N * N =>
+                    let '(v, s) := p in
+                    if Bool.eqb (holds b v s) (holds f v s) then []
+                    else let lost := holds f v s in
+                         [(FBooks (r_id b) v s lost,
+                           if dupkey rall v s then Some 1
+                           else k0_if (lost && in_drops drops v s (r_id b)))])
+                 (r_holds b ++ filter (fun p => negb (holds b (fst p) (snd p))) (r_holds f)) ++
+        books_fails rall r0' books' rf' drops
+      else [(FNodes, None)]
+  | _, _, _ => [(FNodes, None)]
+  end.
+
+Definition prop_fails (c : case) : list (fail * option N) :=
   let r0 := ref_of (c_nodes c) in
   let nracks := length (dedup (map n_rack (c_nodes c))) in
-  let '(rf, legal) := replay r0 (ceil_div total_shards (Z.of_nat nracks)) (c_events c) in
+  let '(rf, drops, fs) := replay r0 r0 (ceil_div total_shards (Z.of_nat nracks)) [] (c_events c) in
   let books := ref_of (c_final c) in
+  let expected v s := if (0 <? r_total r0 v s)%nat then 1%nat else 0%nat in
+  let vids := dedup (all_vids (c_nodes c) ++ all_vids (c_final c)) in
   (* every planned move is legal *)
-  legal &&
-  (* the books after the dry run are the cluster after the plan *)
-  list_eqb (fun a b => (r_id a =? r_id b) && (r_free a =? r_free b)%Z &&
-                      subset (r_holds a) (r_holds b) && subset (r_holds b) (r_holds a)) books rf &&
-  (* every shard present before is present exactly once after; nothing else appears *)
-  forallb (fun v => forallb (fun s =>
-      Nat.eqb (r_total rf v s) (if (0 <? r_total r0 v s)%nat then 1 else 0)) shard_range)
-    (dedup (all_vids (c_nodes c) ++ all_vids (c_final c))).
+  fs ++
+  (* the books after the dry run are the cluster after the plan, and no slot leaked *)
+  books_fails r0 r0 books rf drops ++
+  (* every shard present before is present exactly once after; nothing else appears:
+     in the cluster after the plan, and in the books *)
+  flat_map (fun v => flat_map (fun s =>
+      (if Nat.eqb (r_total rf v s) (expected v s) then []
+       else [(FOnceReplay v s, k1_if (dupkey r0 v s))]) ++
+      (if Nat.eqb (r_total books v s) (expected v s) then []
+       else [(FOnceBooks v s, if dupkey r0 v s then Some 1 else k0_if (key_dropped drops v s))]))
+    shard_range) vids.
+
+(* the property is stated for well-formed books (one EcShardInfos entry per volume and server,
+   which is what the master's topology produces); other layouts are correspondence-only *)
+Definition wf_b (ns : list node) : bool :=
+  forallb (fun n => Nat.eqb (length (dedup (map e_vid (entries n)))) (length (entries n))) ns &&
+  Nat.eqb (length (dedup (map n_id ns))) (length ns).
+
+(* all failures explained -> the finding of the first one; one unexplained failure -> None *)
+Definition explain (fs : list (fail * option N)) : option N :=
+  if forallb (fun f : fail * option N => match snd f with Some _ => true | None => false end) fs
+  then match fs with (_, k) :: _ => k | [] => None end
+  else None.
 
 Definition check (c : case) : outcome :=
-  let a := accept c in
-  {| o_corr := match a with Some _ => true | None => false end;
-     o_prop := prop_ok c;
-     o_trig := if has_dup (c_nodes c) then Some 1
-               else match a with
-                    | Some (_, its) => if has_drop its then Some 0 else None
-                    | None => None
-                    end;
+  let fs := if wf_b (c_nodes c) then prop_fails c else [] in
+  {| o_corr := corr c;
+     o_prop := match fs with [] => true | _ => false end;
+     o_trig := explain fs;
      o_nontrivial := existsb is_move (c_events c) |}.
 
 Definition summarize_cases (l : list case) : summary := summarize check l.
